@@ -327,10 +327,10 @@ def specs(tier: str, seed: int, tlc_cases: list | None = None):
     for cls in LEAF_CLASSES:
         regimes = ["init", "perturbed"] + (["negscale"] if cls in ("Affine", "Reshape") else [])
         for reg in regimes:
-            for rep_ in range(3 if thorough else 1):
+            for rep_ in range(2 if thorough else 1):
                 out.append({"src": "leaf", "cls": cls, "regime": reg, "seed": rng.randrange(2**30)})
     progs = [c["prog"] for c in (tlc_cases or []) if c["r"]["valid"] and c["prog"]["k"] not in ("aff", "cadd", "perm", "flip", "ident", "scan")]
-    k = 700 if thorough else 60
+    k = 300 if thorough else 60
     for q in (progs if len(progs) <= k else rng.sample(progs, k)):
         out.append({"src": "prog", "prog": q, "seed": rng.randrange(2**30)})
     for fac in ("coupling_flow", "masked_autoregressive_flow", "block_neural_autoregressive_flow", "planar_flow", "triangular_spline_flow"):
